@@ -45,6 +45,17 @@ func c12si(i, host int) *network.ServerIdentity {
 	return si
 }
 
+// c12rebuilt: the same identity as a Go object of its own — the key re-parsed from its encoding (as an identity that
+// arrived over the wire or was read from a file is), never the roster entry's point object
+func c12rebuilt(si *network.ServerIdentity) *network.ServerIdentity {
+	b, err := si.Public.MarshalBinary()
+	p := fix.Suite.Point()
+	if err != nil || p.UnmarshalBinary(b) != nil {
+		return network.NewServerIdentity(si.Public.Clone(), si.Address)
+	}
+	return network.NewServerIdentity(p, si.Address)
+}
+
 func c12roster(hosts []int) *onet.Roster {
 	c12mu.Lock()
 	defer c12mu.Unlock()
@@ -298,8 +309,11 @@ func c12exec(c *h.Ctx, cs *h.Case) {
 				}
 				// the root as the roster's own entry, or as a separate value with the same key
 				root := ro.List[r]
-				if (n+N+r)%2 == 1 {
+				switch (n + N + r) % 3 {
+				case 1:
 					root = network.NewServerIdentity(root.Public, root.Address)
+				case 2:
+					root = c12rebuilt(root)
 				}
 				var t *onet.Tree
 				if r == 0 && (n+N)%3 == 0 {
@@ -313,6 +327,78 @@ func c12exec(c *h.Ctx, cs *h.Case) {
 					obs = c12dump(t)
 				}
 				check(ro, t, c12want{"nary", n, N, n, r, true}, "")
+			case len(tk) == 5 && tk[1] == "narywr":
+				// ro.NewRosterWithRoot(root).GenerateNaryTree(N): the documented way to a tree whose root is the first entry of
+				// its roster.  A root that is not a member: no roster (and so no tree).  The root is an object of its own.
+				n, ok1 := atoi(tk[2])
+				N, ok2 := atoi(tk[3])
+				if !ok1 || !ok2 || n == 0 {
+					return
+				}
+				ro := c12roster(distinct(n))
+				r, member := -1, false
+				var root *network.ServerIdentity
+				if tk[4] == "x" {
+					c12mu.Lock()
+					root = c12rebuilt(c12si(n+1000, 0))
+					c12mu.Unlock()
+				} else {
+					r, member = atoi(tk[4])
+					if !member || r >= n {
+						return
+					}
+					root = c12rebuilt(ro.List[r])
+				}
+				before := append([]*network.ServerIdentity{}, ro.List...)
+				nr := ro.NewRosterWithRoot(root)
+				for i := range before {
+					if ro.List[i] != before[i] {
+						cs.Fail("withroot-changes-receiver", "NewRosterWithRoot changed the list of the roster it was called on — "+op)
+						break
+					}
+				}
+				if nr == nil {
+					obs = "none"
+					if member {
+						cs.Fail("withroot-nil", "NewRosterWithRoot returned nil although the root is roster member "+strconv.Itoa(r)+" — "+op)
+					}
+					return
+				}
+				var order []int
+				seen := map[int]bool{}
+				perm := len(nr.List) == n
+				for _, si := range nr.List {
+					at := -1
+					for i, o := range ro.List {
+						if si != nil && si.Public != nil && si.Public.Equal(o.Public) {
+							at = i
+						}
+					}
+					perm = perm && at >= 0 && !seen[at]
+					seen[at] = true
+					order = append(order, at)
+				}
+				var t *onet.Tree
+				if N >= 1 || n == 1 {
+					t = nr.GenerateNaryTree(N)
+				}
+				if t == nil {
+					obs = "order=" + h.Ints(order) + " none"
+				} else {
+					obs = "order=" + h.Ints(order) + " " + c12dump(t)
+				}
+				if !member {
+					cs.Fail("withroot-unexpected-roster", "NewRosterWithRoot returned a roster (and GenerateNaryTree a tree) for a root that is not in the roster — "+op)
+					return
+				}
+				if !perm || order[0] != r {
+					cs.Fail("withroot-order", fmt.Sprintf("NewRosterWithRoot(member %d) lists the servers %v: not the same servers with the root first — %s", r, order, op))
+					return
+				}
+				if g, err := nr.GetID(); err != nil || !g.Equal(nr.ID) {
+					cs.Fail("withroot-id", "the roster returned by NewRosterWithRoot carries an id that is not the id of its list — "+op)
+				}
+				check(nr, t, c12want{"nary", n, N, n, 0, true}, "")
 			case len(tk) == 3 && (tk[1] == "binary" || tk[1] == "star"):
 				n, ok := atoi(tk[2])
 				if !ok || n == 0 {
@@ -496,7 +582,7 @@ func c12exec(c *h.Ctx, cs *h.Case) {
 				if tk[3] != "nil" {
 					// a separate value with the same key as the roster's entry (if there is one)
 					orig := c12si(rootKey, rootKey)
-					root = network.NewServerIdentity(orig.Public, orig.Address)
+					root = c12rebuilt(orig)
 				} else {
 					first = 0
 				}
@@ -570,7 +656,7 @@ func c12exec(c *h.Ctx, cs *h.Case) {
 				var root *network.ServerIdentity
 				if tk[5] != "nil" {
 					orig := c12si(rootKey, rootKey)
-					root = network.NewServerIdentity(orig.Public, orig.Address)
+					root = c12rebuilt(orig)
 				} else {
 					first = 0
 				}
@@ -911,6 +997,14 @@ func c12gen(c *h.Ctx, yield func(*h.Case)) {
 			}
 			ops = append(ops, fmt.Sprintf("c12 nary %d %d x", n, N))
 		}
+		for N := 1; N <= 3; N++ {
+			for root := 0; root < n; root++ {
+				if root < 3 || root == n-1 || (root+N)%4 == 0 {
+					ops = append(ops, fmt.Sprintf("c12 narywr %d %d %d", n, N, root))
+				}
+			}
+			ops = append(ops, fmt.Sprintf("c12 narywr %d %d x", n, N))
+		}
 		ops = append(ops, fmt.Sprintf("c12 nary %d %d 0", n, n), fmt.Sprintf("c12 nary %d %d %d", n, n+3, n-1),
 			fmt.Sprintf("c12 binary %d", n), fmt.Sprintf("c12 star %d", n))
 		emit(fmt.Sprintf("nary exhaustive n=%d", n), ops)
@@ -921,7 +1015,8 @@ func c12gen(c *h.Ctx, yield func(*h.Case)) {
 		if r.Intn(4) == 0 {
 			N = 1 + r.Intn(n+2)
 		}
-		ops := []string{fmt.Sprintf("c12 nary %d %d %d", n, N, r.Intn(n)), fmt.Sprintf("c12 nary %d %d x", n, N)}
+		ops := []string{fmt.Sprintf("c12 nary %d %d %d", n, N, r.Intn(n)), fmt.Sprintf("c12 nary %d %d x", n, N),
+			fmt.Sprintf("c12 narywr %d %d %d", n, N, r.Intn(n)), fmt.Sprintf("c12 narywr %d %d x", n, N)}
 		if r.Intn(3) == 0 {
 			ops = append(ops, fmt.Sprintf("c12 binary %d", n), fmt.Sprintf("c12 star %d", n))
 		}
